@@ -283,6 +283,12 @@ def run_property(pid, tier="quick", seed=0, only=None, jobs=None, no_replay=Fals
         if a["refuted"]:
             ob = a["refuted"][0]
             fc = C.fns.get(a["fn"])
+            if fc is None or not fc.verified:
+                # the main set only assumes this function (ext); an extra set verifies it
+                for k_, f_ in C.fns.items():
+                    if k_.startswith(a["fn"] + "#") and f_.verified:
+                        fc = f_
+                        break
             kf = None
             for k in known:
                 if k.get("obligation") == name:
